@@ -15,6 +15,7 @@ import (
 	"flag"
 	"fmt"
 	"math/rand"
+	"os"
 	"sort"
 	"strconv"
 	"strings"
@@ -387,6 +388,7 @@ func brokerViewMain(args []string) int {
 	nh := fs.Int("histories", 40, "random histories")
 	steps := fs.Int("steps", 40, "steps per history")
 	probes := fs.Bool("probes", true, "the scripted histories (state before config, growth, drop)")
+	scripts := fs.String("scripts", "", "leg R: JSON file with behaviours generated by TLC from BrokerViewGen (list of lists of steps)")
 	_ = fs.Parse(args)
 	rec, err := trace.New(*out)
 	if err != nil {
@@ -417,6 +419,21 @@ func brokerViewMain(args []string) int {
 	for i := 0; i < *nh; i++ {
 		bvHistory(rec, rand.New(rand.NewSource(rng.Int63())), h, *steps, nil, sum)
 		h++
+	}
+	if *scripts != "" {
+		var gen [][]string
+		b, err := os.ReadFile(*scripts)
+		if err == nil {
+			err = json.Unmarshal(b, &gen)
+		}
+		if err != nil {
+			fmt.Println("scripts:", err)
+			return 2
+		}
+		for _, sc := range gen {
+			bvHistory(rec, rng, 10000+h, 0, sc, sum)
+			h++
+		}
 	}
 	_ = rec.Close()
 	sum.Traces, sum.Events = rec.Counts()
